@@ -12,7 +12,7 @@ import Heathcliff.Proofs.Codec
 import Heathcliff.Proofs.Sink
 import Heathcliff.Proofs.SinkI
 import Heathcliff.Model.CodecGen
-import Heathcliff.Proofs.GenSerP
+import Heathcliff.Proofs.GenSerC
 namespace HC.C15
 open HC.Codec
 
@@ -178,6 +178,11 @@ theorem gen_source_writers_fail_cleanly : type_of% @HC.GS.c15g_source_writers_fa
 
 /-- generated readers on every strict prefix of a valid encoding: `Err(UnexpectedEof)` -/
 theorem gen_source_readers_truncation : type_of% @HC.GS.c15g_source_readers_truncation := @HC.GS.c15g_source_readers_truncation
+
+/-- the same for the generated `Ciphertext::serialize_full` (flat-word format), on the view of any model ciphertext whose level has a
+    real scheme and whose data vector holds the words to be sent -/
+theorem gen_ct_serialize_full_fails_cleanly :
+    type_of% @HC.GS.c15g_ct_serialize_full_fails_cleanly := @HC.GS.c15g_ct_serialize_full_fails_cleanly
 
 /-- not an I/O fault, recorded: `write_u64_limited` with a value that does not fit writes the truncated bytes, then panics -/
 theorem gen_limited_writer_panics_after_writing :
